@@ -421,7 +421,11 @@ fn nest_programs(depth: usize) -> Vec<(String, String)> {
     out
 }
 
+/// Imports spelled with dot segments (`"./f1.asm"`) name the same files.
+static DOTTED: std::sync::atomic::AtomicBool = std::sync::atomic::AtomicBool::new(false);
+
 fn graph_files(n: usize, code: u64, with_missing: bool) -> Vec<(String, String)> {
+    let dotted = DOTTED.load(std::sync::atomic::Ordering::SeqCst);
     // bit (i * width + j): file i imports file j; j == n means the missing file
     let width = if with_missing { n + 1 } else { n };
     let mut files = vec![];
@@ -432,7 +436,7 @@ fn graph_files(n: usize, code: u64, with_missing: bool) -> Vec<(String, String)>
                 if j == n {
                     text.push_str(".import * from \"missing.asm\"\n");
                 } else {
-                    text.push_str(&format!(".import * as ns{} from \"f{}.asm\"\n", j, j));
+                    text.push_str(&format!(".import * as ns{} from \"{}f{}.asm\"\n", j, if dotted { "./" } else { "" }, j));
                 }
             }
         }
@@ -582,13 +586,14 @@ fn run_graphs(ctx: &Ctx, n: usize, with_missing: bool) {
     (0..total).into_par_iter().for_each(|code| {
         let files = graph_files(n, code, with_missing);
         ctx.eval(|| json!({"import_graph": {"files": n, "code": code}}));
-        ctx.nontrivial(fnv_str(&format!("g{}:{}:{}", n, code, with_missing)));
+        ctx.nontrivial(fnv_str(&format!("g{}:{}:{}:{}", n, code, with_missing, DOTTED.load(std::sync::atomic::Ordering::SeqCst))));
         let outp = Command::new(&exe)
             .arg("C06")
             .arg("--graph")
             .arg(n.to_string())
             .arg(code.to_string())
             .arg(if with_missing { "1" } else { "0" })
+            .arg(if DOTTED.load(std::sync::atomic::Ordering::SeqCst) { "dotted" } else { "plain" })
             .output();
         let fm: serde_json::Map<String, Value> = files.iter().map(|(n, t)| (n.clone(), json!(t))).collect();
         let case = json!({"kind": "pipeline", "origin": "import-graph", "entry": "f0.asm", "files": fm});
@@ -720,6 +725,7 @@ pub fn run(ctx: &Ctx, replay: Option<&Value>, rest: &[String]) -> i32 {
         return text_child(&rest[1]);
     }
     if rest.len() >= 4 && rest[0] == "--graph" {
+        DOTTED.store(rest.get(4).map(|x| x == "dotted").unwrap_or(false), std::sync::atomic::Ordering::SeqCst);
         return graph_child(rest[1].parse().unwrap(), rest[2].parse().unwrap(), rest[3] == "1");
     }
     if let Some(case) = replay {
@@ -788,6 +794,11 @@ pub fn run(ctx: &Ctx, replay: Option<&Value>, rest: &[String]) -> i32 {
     // (c) import graphs, one child process per graph (a stack overflow cannot be caught)
     run_graphs(ctx, 2, true);
     run_graphs(ctx, 3, thorough);
+    // the same graphs with every import spelled "./fN.asm"
+    DOTTED.store(true, std::sync::atomic::Ordering::SeqCst);
+    run_graphs(ctx, 2, true);
+    run_graphs(ctx, 3, false);
+    DOTTED.store(false, std::sync::atomic::Ordering::SeqCst);
     if thorough {
         run_graphs(ctx, 4, false);
     }
@@ -797,7 +808,7 @@ pub fn run(ctx: &Ctx, replay: Option<&Value>, rest: &[String]) -> i32 {
     real_binary_cases(ctx);
     ctx.finish(
         "exploration",
-        "(a) every single-character edit of the production-covering corpus and (reduced) of the examples, all token strings up to length 3/4, each pushed through parse -> codegen(build) -> codegen(language-server mode) -> format -> listing(1, 8); (b) 17 directive/operator positions x 31 integer arguments incl. 0, negatives, 2^63-1 and literals of 20/40/100 digits in each radix, all pairs for / and %; names with dots/spaces; (c) all import graphs over 2 and 3 files (each file may import any subset incl. itself and a missing file; 4 files without missing file in thorough), one child process per graph; (d) convergence stress programs; (f) every nest of depth <= 3 (quick) / 4 (thorough) over 14 block constructs (taken / untaken / undefined conditionals, segment, scopes, loops incl. 0 iterations, invoked and uninvoked macros, test, import with block) x 3 leaves, each level followed by a statement of its own, and macros that invoke themselves or each other 1-3 times (unguarded, counting down, never ending; invoked once, twice or never); (e) invalid UTF-8 / directory / missing / unreadable files through the real binary. Non-termination is decided by recurring pass-state digests and a fuel counter, never by a clock. non-trivial = distinct input that parses without diagnostics (so that code generation, formatting and listing run) or any import-graph / integer / stress case",
+        "(a) every single-character edit of the production-covering corpus and (reduced) of the examples, all token strings up to length 3/4, each pushed through parse -> codegen(build) -> codegen(language-server mode) -> format -> listing(1, 8); (b) 17 directive/operator positions x 31 integer arguments incl. 0, negatives, 2^63-1 and literals of 20/40/100 digits in each radix, all pairs for / and %; names with dots/spaces; (c) all import graphs over 2 and 3 files (each file may import any subset incl. itself and a missing file; 4 files without missing file in thorough), also with every import spelled `./name`, one child process per graph; (d) convergence stress programs; (f) every nest of depth <= 3 (quick) / 4 (thorough) over 14 block constructs (taken / untaken / undefined conditionals, segment, scopes, loops incl. 0 iterations, invoked and uninvoked macros, test, import with block) x 3 leaves, each level followed by a statement of its own, and macros that invoke themselves or each other 1-3 times (unguarded, counting down, never ending; invoked once, twice or never); (e) invalid UTF-8 / directory / missing / unreadable files through the real binary. Non-termination is decided by recurring pass-state digests and a fuel counter, never by a clock. non-trivial = distinct input that parses without diagnostics (so that code generation, formatting and listing run) or any import-graph / integer / stress case",
         true,
         &[
             "not all byte strings: single edits of a corpus, short token strings, finite menus",
